@@ -5,6 +5,7 @@ import (
 	"encoding/json"
 	"fmt"
 	"math/rand"
+	"os"
 
 	"verif/harness/vk"
 )
@@ -52,7 +53,7 @@ func genCfg(rng *rand.Rand) (maxio, fsz int, emb bool) {
 	fszs := []int{64, 65, 96, 128, 200, 256, 511, 512}
 	fsz = fszs[rng.Intn(len(fszs))]
 	maxio = 1 + rng.Intn(3)
-	if rng.Intn(8) == 0 {
+	if rng.Intn(12) == 0 {
 		emb = true
 		maxio = 1
 	}
@@ -96,6 +97,14 @@ func tail(cuts []uint64) []Act {
 
 // Gen: n = number of cases (one case = one store driven through a whole scenario)
 func Gen(r *vk.Run, n int) error {
+	err := gen(r, n)
+	if err == errGiveUp {
+		return nil // reported through the findings
+	}
+	return err
+}
+
+func gen(r *vk.Run, n int) error {
 	sh := &shared{}
 	rng := r.Rng
 	// --- the two known findings, replayed first, deterministically
@@ -109,8 +118,9 @@ func Gen(r *vk.Run, n int) error {
 	for r.N < n {
 		fam++
 		maxio, fsz, emb := genCfg(rng)
+		pick := rng.Intn(20)
 		switch {
-		case fam%5 == 4:
+		case pick < 5:
 			// real goroutine races between committers, quiescent truncation afterwards
 			T := 5 + rng.Intn(8)
 			txs := genTxs(rng, T, fsz, true)
@@ -124,7 +134,7 @@ func Gen(r *vk.Run, n int) error {
 			if err := runScenario(r, scn, sh, "race"); err != nil {
 				return err
 			}
-		case fam%5 == 2:
+		case pick < 15:
 			// truncations in the middle of the history, some while a committer is stalled,
 			// failing committers (orphan values), repeated/decreasing cuts
 			T := 4 + rng.Intn(6)
@@ -143,7 +153,7 @@ func Gen(r *vk.Run, n int) error {
 					committedGuess++
 				}
 				stalledNow := len(launched) > committedGuess
-				if rng.Intn(3) == 0 && (!stalledNow || rng.Intn(3) == 0) {
+				if rng.Intn(3) == 0 && (!stalledNow || rng.Intn(2) == 0) {
 					plan = append(plan, Act{Op: "trunc", N: uint64(rng.Intn(committedGuess + 2))})
 				}
 			}
@@ -157,7 +167,7 @@ func Gen(r *vk.Run, n int) error {
 			if err := runScenario(r, scn, sh, "mid"); err != nil {
 				return err
 			}
-		case fam%11 == 10:
+		case pick == 15:
 			// value cache on: direct checks only (no case is recorded)
 			T := 4 + rng.Intn(4)
 			txs := genTxs(rng, T, fsz, false)
@@ -175,13 +185,16 @@ func Gen(r *vk.Run, n int) error {
 			// one history, EVERY cut point 0..T+1 (the placement is reproduced exactly each time)
 			T := 3 + rng.Intn(5)
 			txs := genTxs(rng, T, fsz, false)
-			order := genOrder(rng, T, rng.Intn(4))
+			order := genOrder(rng, T, 1+rng.Intn(4))
 			var launch []Act
 			for _, id := range order {
 				launch = append(launch, Act{Op: "launch", ID: id})
 			}
 			xo := []int64{rng.Int63(), rng.Int63()}
 			for cut := 0; cut <= T+1 && r.N < n; cut++ {
+				if emb && cut > 2 {
+					break // with embedded values TruncateUptoTx deletes nothing: three cuts are enough
+				}
 				cuts := []uint64{uint64(cut)}
 				plan := append(append([]Act{}, launch...), tail(cuts)...)
 				scn := &Scenario{Mode: "replica", MaxIO: maxio, Fsz: fsz, Emb: emb, Txs: txs, Plan: plan, XOrder: xo}
@@ -193,6 +206,9 @@ func Gen(r *vk.Run, n int) error {
 	}
 	if err := databaseChecks(r); err != nil {
 		return err
+	}
+	if os.Getenv("VERIF_TIER") == "thorough" {
+		raceStress(r, 20)
 	}
 	return nil
 }
